@@ -10,7 +10,6 @@
 # information at https://github.com/ddsmt/ddSMT/blob/master/LICENSE.
 
 import io
-import textwrap
 import typing
 
 from .nodes import Node
@@ -188,6 +187,37 @@ def __write_smtlib_pretty_str(expr: Node):
     return f.getvalue()
 
 
+class _LineWrapper:
+    """File-like object that breaks lines at the spaces written between
+    tokens, never inside a token, string literal or comment."""
+
+    def __init__(self, file: typing.TextIO, width=78, indent='  '):
+        self.file = file
+        self.width = width
+        self.indent = indent
+        self.column = 0
+        self.pending_space = False
+
+    def write(self, text: str):
+        if text == ' ':
+            self.pending_space = True
+            return
+        if self.pending_space:
+            self.pending_space = False
+            if self.column + 1 + len(text.split('\n', 1)[0]) > self.width:
+                self.file.write('\n' + self.indent)
+                self.column = len(self.indent)
+            else:
+                self.file.write(' ')
+                self.column += 1
+        self.file.write(text)
+        newline = text.rfind('\n')
+        if newline == -1:
+            self.column += len(text)
+        else:
+            self.column = len(text) - newline - 1
+
+
 def write_smtlib(file: typing.TextIO, exprs: typing.List[Node]):
     """Write the given expressions to the given file object
     Honor options to wrap lines or pretty-print."""
@@ -196,16 +226,14 @@ def write_smtlib(file: typing.TextIO, exprs: typing.List[Node]):
         # pretty print
         for expr in exprs:
             __write_smtlib_pretty(file, expr)
+    elif options.args().wrap_lines:
+        # wrap every line, but only between tokens
+        for expr in exprs:
+            __write_smtlib(_LineWrapper(file), expr)
+            file.write('\n')
     else:
         # regular writeing
         lines = [__write_smtlib_str(expr) for expr in exprs]
-        if options.args().wrap_lines:
-            # wrap every line
-            lines = map(
-                lambda line: textwrap.wrap(
-                    line, width=78, subsequent_indent='  '), lines)
-            # and flatten the list
-            lines = [sub for line in lines for sub in line]
         for line in lines:
             file.write(line)
             file.write('\n')
